@@ -92,6 +92,8 @@ func (c *CredentialsStore) Load(r io.Reader) error {
 
 	var cred Credential
 	for dec.More() {
+		// Reset so fields omitted from this entry are not inherited from the previous one.
+		cred = Credential{}
 		err := dec.Decode(&cred)
 		if err != nil {
 			return err
